@@ -222,7 +222,7 @@ func (si *SourceImpl) replconf(s *Server, ss *Session, a [][]byte) resp.Value {
 
 func (si *SourceImpl) psync(s *Server, ss *Session, a [][]byte) resp.Value {
 	r := s.Repl
-	rec := PsyncRecord{Conn: ss.Conn.ID, Offset: -1}
+	rec := PsyncRecord{Conn: s.labelOf(ss), Offset: -1}
 	if len(a) != 2 {
 		return resp.Err("ERR wrong number of arguments for 'psync' command")
 	}
